@@ -2,5 +2,4 @@ HOOK_COMMITS = []
 NOT_APPLICABLE = {
     'C11': 'text-level inverse of CSV writing/parsing: string, regex and csv-crate code is outside the reach of any contract the installed verifiers can discharge',
     'C14': 'quantifies over crash points inside std::fs / csv::Writer streaming; a function contract relates pre- and post-state of a completed call only, so no contract within reach expresses it',
-    'C19': 'regex parsers and the itertools subset search are outside the verifier; the remaining contract on amend_benefit_sales is not completed (front-end probe only); D8 repaired and watched nowhere in a claimed check',
 }
